@@ -4,9 +4,9 @@
 From Coq Require Import List ZArith Bool.
 From V Require Import Gen.Params Lib.Hex Wire.Varint Wire.Headers Wire.HeadersProofs
      PktProt.PktNum PktProt.PktNumProofs PktProt.Protect PktProt.ProtectProofs PktProt.ProtectExamples
-     UFrames.Model UFrames.Proofs UFrames.ProofsLength
+     UFrames.Model UFrames.Proofs UFrames.ProofsLength Wire.FramesBase Wire.Frames
      PktProt.InitialProtect
-     UPacker.Model UPacker.ProofsSize UPacker.ProofsFlight UPacker.ProofsDecrypt UPacker.ProofsRandom UPacker.ProofsWire UPacker.ProofsInitialKeys UPacker.ProofsTop.
+     UPacker.Model UPacker.ProofsSize UPacker.ProofsFlight UPacker.ProofsDecrypt UPacker.ProofsRandom UPacker.ProofsWire UPacker.ProofsInitialKeys UPacker.ProofsFrames UPacker.ProofsTop.
 Import ListNotations.
 Open Scope Z_scope.
 
@@ -239,7 +239,7 @@ Print Assumptions C10_random_reserve_sufficient.
 Theorem C10_random_payload_exact : forall p data base bs us ws bs' us',
   rf_wf p -> 0 <= base -> 0 < rfLen p -> 1 <= minPad p -> base + rfLen p <= maxVarInt8 ->
   0 < zlen data <= maxCryptoData (rfTuple p) base ->
-  build_internal p data base bs us = Ok (ws, bs', us') ->
+  build_internal p data base bs us = UFrames.Model.Ok (ws, bs', us') ->
   zlen (encode ws) = rfLen p /\ minPad p <= wpadbytes ws.
 Proof. exact t_C10_random_payload_exact. Qed.
 Print Assumptions C10_random_payload_exact.
@@ -250,7 +250,7 @@ Print Assumptions C10_random_payload_exact.
 Theorem C10_random_datagram_exact : forall p data base bs us ws bs' us' cl s hdr pnLen udpMin,
   rf_wf p -> 0 <= base -> 0 < rfLen p -> 1 <= minPad p -> base + rfLen p <= maxVarInt8 ->
   0 < zlen data <= maxCryptoData (rfTuple p) base ->
-  build_internal p data base bs us = Ok (ws, bs', us') ->
+  build_internal p data base bs us = UFrames.Model.Ok (ws, bs', us') ->
   (hdr + rfLen p + 16 <= 1452 ->
    appendInitial (cl, 0) hdr pnLen (zlen (encode ws)) udpMin
    = AppOk (pnLen + rfLen p + 16) (hdr + rfLen p + 16)
@@ -263,7 +263,7 @@ Print Assumptions C10_random_datagram_exact.
 Example C10_random_payload_nonvacuous :
   rf_wf ex_p /\ maxCryptoData (rfTuple ex_p) 0 = 1145 /\
   match build_internal ex_p (repeat 7 1145%nat) 0 ex_bs ex_us with
-  | Ok (ws, _, _) => zlen (encode ws) = 1215 /\ wpadbytes ws = 23
+  | UFrames.Model.Ok (ws, _, _) => zlen (encode ws) = 1215 /\ wpadbytes ws = 23
   | _ => False
   end.
 Proof. exact t_C10_random_payload_nonvacuous. Qed.
@@ -531,6 +531,26 @@ Theorem C10_server_reads_back_initial_keys :
       = UOk (192 + 16 * type_code ver H_PacketTypeInitial + (pnLen - 1)) pn pnLen 0 payload.
 Proof. exact t_C10_server_reads_back_initial_keys. Qed.
 Print Assumptions C10_server_reads_back_initial_keys.
+
+(** ... and the frames inside.  The payload of a pass-through datagram (nil / empty QUICFrames
+    builder) is, byte for byte, the CRYPTO frames the packer popped -- C08's CRYPTO codec over
+    the ClientHello bytes of their ranges -- followed by the exact-size PADDING (tied by
+    PayloadCase); a server that parses it frame by frame at the Initial level with C08's frame
+    parser (skipping PADDING, stopping at the end of the packet) reads exactly those CRYPTO
+    frames, offsets and stream bytes. *)
+Theorem C10_server_parses_passthrough : forall (c : Frames.cfg) data frames pad,
+  Forall (fun f => 0 <= fst f <= maxVarInt8 /\ 0 <= snd f /\ fst f + snd f <= zlen data /\ snd f <= maxVarInt8) frames ->
+  parseAll (S (length frames)) c W_EncryptionInitial (passPayload data frames pad)
+  = Some (map (fun f => FramesBase.FCrypto (fst f) (zslice data (fst f) (snd f))) frames).
+Proof. exact t_C10_server_parses_passthrough. Qed.
+Print Assumptions C10_server_parses_passthrough.
+
+Example C10_server_parses_passthrough_example :
+  passPayload [10; 11; 12; 13; 14] [(0, 2); (2, 3)] 2 = [6; 0; 2; 10; 11; 6; 2; 3; 12; 13; 14; 0; 0] /\
+  parseAll 3 (Cfg false false false 3) W_EncryptionInitial (passPayload [10; 11; 12; 13; 14] [(0, 2); (2, 3)] 2)
+  = Some [FramesBase.FCrypto 0 [10; 11]; FramesBase.FCrypto 2 [12; 13; 14]].
+Proof. exact t_C10_server_parses_passthrough_example. Qed.
+Print Assumptions C10_server_parses_passthrough_example.
 
 (** Non-vacuity: the hypotheses hold for the first packet of a concrete flight (nil builder,
     8-byte DCID, no token, 1165 payload bytes) with C05's toy AEAD and mask. *)
